@@ -98,9 +98,14 @@ def run(chk):
         if vf is not None and 'panic' not in vf:
             ok = len(vf['cells']) == len(d['cells']) and impl_structure(vf) == impl_structure(d)
             if ok:
-                for a, b in zip(vf['cells'], d['cells']):
+                for ci_, (a, b) in enumerate(zip(vf['cells'], d['cells'])):
                     if a.volume is None or abs(a.volume - b.volume) > tol.vol or not close3(a.centroid, b.centroid, tol.pos * 100):
                         ok = False
+                    # generator position and safety radius do not depend on how the cell is decomposed: bitwise
+                    if (a.loc, a.sr) != (b.loc, b.sr):
+                        chk.violation('impl-vs-impl', 'cell %d: generator position / safety radius after with_faces() (%s) differ from the direct build (%s) %s'
+                                      % (ci_, a.sr if a.sr is None else float(a.sr), b.sr if b.sr is None else float(b.sr), where), rp, key='viaf-radius')
+                        break
                 for a, b in zip(vf['faces'], d['faces']):
                     if a.area is None or abs(a.area - b.area) > tol.area * 10:
                         ok = False
